@@ -21,7 +21,7 @@ ASSUMPTIONS = [
     "newlinechar ' ' only with end_comment=False and no loaded comments",
 ]
 TIERS = {
-    "quick": {"examples": 2500, "sets_per_doc": 6, "corpus_sets": 4, "budget_s": 110},
+    "quick": {"examples": 8000, "sets_per_doc": 6, "corpus_sets": 10, "budget_s": 110},
     "thorough": {"examples": 40000, "sets_per_doc": 8, "corpus_sets": 60, "pool": 600, "budget_s": 1800},
 }
 PARTS = ["corpus_part", "search"]
